@@ -598,16 +598,22 @@ func isSuggest(targetT base.T, sig base.Sig) bool {
 		return false
 	}
 
-	if sig.IsPrivate && sig.Class != targetT.DefinedClass {
+	// DefinedClass is the class around the cursor only for an implicit receiver (a bare
+	// identifier, self): the result of a method call carries the class defining that method
+	isImplicitReceiver := targetT.GetMethodName() == ""
+
+	if sig.IsPrivate && (!isImplicitReceiver || sig.Class != targetT.DefinedClass) {
 		return false
 	}
 
-	if sig.Class == targetT.DefinedClass && sig.IsStatic == targetT.IsStatic {
-		return true
-	}
+	if isImplicitReceiver {
+		if sig.Class == targetT.DefinedClass && sig.IsStatic == targetT.IsStatic {
+			return true
+		}
 
-	if isParentClass(sig, targetT.DefinedFrame, targetT.DefinedClass, targetT.IsStatic, false, false) {
-		return true
+		if isParentClass(sig, targetT.DefinedFrame, targetT.DefinedClass, targetT.IsStatic, false, false) {
+			return true
+		}
 	}
 
 	if isStaticTarget != sig.IsStatic {
